@@ -24,18 +24,34 @@ func C36(e *simkern.Env) {
 	pad := tp.Pick(0, 200, 3000)
 	ops := pipew.GenOps(tp, pipew.GenCfg{MinOps: 2, MaxOps: 7, FailBias: 3, InitFail: true, Cancel: true, Cast: true, WriteAhead: true,
 		MaxTurns: 5, NonceBase: 36000, EmitMeta: true, Pad: pad})
+	shmSend := tp.Bool(1, 2)
+	lazyClient := tp.Bool(1, 2)
+	if lazyClient {
+		// a lazy client is interesting when several results are outstanding:
+		// add a run of unary calls whose results are large enough for the segment
+		for k, n := 0, 3+tp.Draw(5); k < n; k++ {
+			nonce := int64(36500 + k)
+			m := []string{"u_str", "u_str", "u_list", "u_rich", "u_int"}[tp.Draw(5)]
+			op := &pipew.Op{Kind: "unary", Method: m, Script: &hx.Script{Nonce: nonce, Outcome: "ok", Pad: tp.Pick(0, 40, 300)}, CancelAt: -1, ReqID: fmt.Sprintf("rq-%d", nonce)}
+			at := tp.Draw(len(ops) + 1)
+			ops = append(ops[:at:at], append([]*pipew.Op{op}, ops[at:]...)...)
+		}
+	}
 	kn := pipew.DrawKnobs(tp)
 	dataSize := tp.Pick(64*1024, 600, 4096, 1)
+	if lazyClient && tp.Bool(1, 2) {
+		dataSize = 64 * 1024
+	}
 	advertise := tp.Pick(0, 1, 2) // 0 all requests, 1 only the first, 2 a drawn subset
 	adv := make([]bool, len(ops))
 	for i := range adv {
 		adv[i] = advertise == 0 || (advertise == 1 && i == 0) || (advertise == 2 && tp.Bool(1, 2))
 	}
-	shmSend := tp.Bool(1, 2)
 	e.Knob("pad", pad)
 	e.Knob("segment_data_bytes", dataSize)
 	e.Knob("advertise", []string{"all", "first-only", "subset"}[advertise])
 	e.Knob("client_sends_via_shm", shmSend)
+	e.Knob("client_holds_unary_pointers", lazyClient)
 	e.Res.Sample = pipew.Describe(ops)
 	left := e.Bubble(func() {
 		sim := simkern.NewSim(tp, e.Trace)
@@ -68,6 +84,17 @@ func C36(e *simkern.Env) {
 		}
 		shm := &pipew.Session{Srv: pipew.NewServer(nil), Ops: ops, Shm: seg, ShmSend: shmSend,
 			Advertise: func(op *pipew.Op) bool { return adv[idx[op]] }}
+		if lazyClient {
+			// a client that consumes unary results lazily: it keeps their pointer
+			// batches and resolves+frees them later, between calls, in any order
+			shm.Hold = func() bool { return tp.Bool(2, 3) }
+			shm.ReleaseNow = func(n int, final bool) int {
+				if !final && tp.Bool(1, 2) {
+					return -1
+				}
+				return tp.Draw(n)
+			}
+		}
 		reason = pipew.RunSession(sim, shm, kn, 80000)
 		sim.Fault("shm-advertised")
 		if reason == simkern.StopDeadlock {
@@ -77,6 +104,7 @@ func C36(e *simkern.Env) {
 			sim.ProbeN("pointer-batches-resolved-by-client", shm.ShmResolved)
 			sim.ProbeN("batches-sent-through-shm-by-client", shm.ShmSentCount)
 			sim.ProbeN("pointer-batches-held-until-end-of-stream", shm.ShmDeferred)
+			sim.ProbeN("most-unary-pointers-held-at-once", shm.HeldMax)
 			if shm.ShmErr != nil {
 				e.Violate("pointer-not-resolvable", "shm-session", "%v", shm.ShmErr)
 			}
